@@ -367,16 +367,14 @@ Definition forin_expect : list (string * list string) :=
    ====================================================================== *)
 Record exc := mkX { x_owner : string; x_name : string; x_what : string; x_class : Z }.
 
-(* finding classes:
-   1 function [length] differs from ES5        2 RegExp.prototype lacks the 15.10.7 properties
-   3 bound functions (15.3.4.5)                4 (repaired by 0d00771: String index properties are enumerable)
-   5 Date.prototype time value is +0, not NaN  6 [[Class]] of the NativeError prototypes
-   7 (repaired by c76d7ee: getOwnPropertyDescriptor of caller/stack) *)
+(* finding classes still open:
+   2 RegExp.prototype lacks the 15.10.7 properties      3 bound functions (15.3.4.5)
+   Repaired in /repo and therefore no longer excused (a return of the old behaviour is a violation):
+   1 function lengths (039bad0), 4 String index properties enumerable (0d00771), 5 Date.prototype
+   time value NaN (b5e8b13), 6 [[Class]] of the NativeError prototypes (77856ca),
+   7 getOwnPropertyDescriptor of caller/stack (c76d7ee), 8 Copy() with eval rebound (1f3ee72). *)
 Definition exceptions : list exc :=
-  [ mkX "Math" "atan2" "fn:length" 1;                      (* observed 1, ES5 15.8.2.5: 2 *)
-    mkX "Number.prototype" "toString" "fn:length" 1;       (* observed 0, ES5 15.7.4.2: 1 *)
-    mkX "Number.prototype" "toLocaleString" "fn:length" 1; (* observed 1, ES5 15.7.4.3: 0 *)
-    mkX "RegExp.prototype" "source" "missing" 2;
+  [ mkX "RegExp.prototype" "source" "missing" 2;
     mkX "RegExp.prototype" "global" "missing" 2;
     mkX "RegExp.prototype" "ignoreCase" "missing" 2;
     mkX "RegExp.prototype" "multiline" "missing" 2;
@@ -392,14 +390,7 @@ Definition exceptions : list exc :=
     mkX "spec.boundnative" "arguments" "kind" 3;
     mkX "spec" "boundbound" "fn:has-prototype" 3;
     mkX "spec.boundbound" "caller" "kind" 3;
-    mkX "spec.boundbound" "arguments" "kind" 3;
-    mkX "Date.prototype" "" "primitive" 5;
-    mkX "EvalError.prototype" "" "class" 6;
-    mkX "RangeError.prototype" "" "class" 6;
-    mkX "ReferenceError.prototype" "" "class" 6;
-    mkX "SyntaxError.prototype" "" "class" 6;
-    mkX "TypeError.prototype" "" "class" 6;
-    mkX "URIError.prototype" "" "class" 6 ].
+    mkX "spec.boundbound" "arguments" "kind" 3 ].
 
 (* own properties whose descriptor cannot be obtained: none since c76d7ee (the [caller]
    accessor of function objects and the [stack] accessor of Error instances used to make
